@@ -13,7 +13,6 @@ import (
 	"github.com/attestantio/vouch/internal/vnd"
 	"github.com/attestantio/vouch/internal/vstub"
 	"github.com/prysmaticlabs/go-bitfield"
-	"github.com/rs/zerolog"
 )
 
 const (
@@ -50,7 +49,7 @@ func (p *c07Provider) AggregateAttestation(ctx context.Context, _ *api.Aggregate
 
 // c07New builds the strategy the way main does: through New.
 func c07New(timeout time.Duration, providers map[string]eth2client.AggregateAttestationProvider) *Service {
-	s, err := New(context.Background(), WithLogLevel(zerolog.Disabled), WithClientMonitor(vstub.ClientMonitor{}),
+	s, err := New(context.Background(), WithLogLevel(vnd.LogLevel()), WithClientMonitor(vstub.ClientMonitor{}),
 		WithTimeout(timeout), WithProcessConcurrency(int64(len(providers))), WithAggregateAttestationProviders(providers))
 	vnd.Assert(err == nil && s != nil, "C07.new.accepted")
 	return s
